@@ -46,7 +46,9 @@ func (o c09Op) String() string { return fmt.Sprintf("%s%v", o.Name, o.A) }
 
 var c09BigKey = strings.Repeat("k", 5000)
 
-var c09KeyBatches = [][]string{{"a", "b"}, {"b", c09BigKey}, {"é"}}
+// batch 0 repeats a NEW key after a newer one: the log entry carries ids 1,2,1 (the replay must take the
+// highest id of an entry, not the last, to continue the sequence)
+var c09KeyBatches = [][]string{{"a", "b", "a"}, {"b", c09BigKey}, {"é"}}
 
 // c09BigImport: 1300 columns x (bit depth 7 + 1) > the fragment's MaxOpN of 10000 (value 100 forces
 // bit depth 7; below the threshold the import would log one op per bit instead). Columns 3 and 4 get
@@ -990,11 +992,11 @@ func c09JudgeInner(dir string, acked, after *c09Model, inflight *c09Op, ackedOps
 	if err != nil {
 		return "write-after-restart-fails", "translate: " + err.Error()
 	}
-	for k, id := range final.keys {
+	// the new key must not be given an id that an ACKNOWLEDGED key holds (keys of the batch in flight
+	// may legitimately be absent, and then their predicted ids are free)
+	for k, id := range acked.keys {
 		if strings.HasPrefix(k, "col:") && id == ids[0] {
-			if s, _ := st.h.translateFile.TranslateColumnToString("i", id); s != "zz-after-restart" {
-				return "key-ids-collide", fmt.Sprintf("new key got id %d which belongs to %s", id, vxShort(k))
-			}
+			return "key-ids-collide", fmt.Sprintf("a key created after the restart got id %d, which was acknowledged for %s", id, vxShort(k))
 		}
 	}
 	before := c09ReadBits(st.h)
